@@ -137,6 +137,21 @@ def gen_cases(tier, rnd):
         n = rnd.choice([2, 2, 3])
         init = dict(init0, profile=rnd.choice(['undecided', 'undecided', 'disabled']))
         cases.append(dict(kind='sequence', init=init, runs=[random_run(rnd) for _ in range(n)]))
+    # 3b. runs interleaved with ordinary use of the decorator (enable / disable / decorate) that changes its state
+    uses = [['decorate'], ['enable'], ['enable', 'decorate'], ['disable'], ['enable', 'disable', 'decorate'], ['decorate', 'enable']]
+    for pat in itertools.product(range(len(uses) + 1), repeat=2):
+        for outcome2 in (('ret', 'exc') if not thorough else ('ret', 'exit', 'exc')):
+            rs = [make_run(True, False, False, False, None, 'rel', [], ['a'], 'ret', 0, 0, 0),
+                  make_run(rnd.random() < 0.5, rnd.random() < 0.5, rnd.random() < 0.3, False, None, 'sub', [], [], outcome2, 0, 0, 0),
+                  make_run(True, False, False, False, None, 'rel', [], [], rnd.choice(['ret', 'exit', 'exc']), 0, 0, 0)]
+            for r, k in zip(rs[1:], pat):
+                r['pre_use'] = uses[k - 1] if k else []
+            cases.append(dict(kind='interleaved-use', init=init0, runs=rs))
+    for _ in range(600 if thorough else 40):
+        rs = [random_run(rnd) for _ in range(rnd.choice([2, 3]))]
+        for r in rs:
+            r['pre_use'] = list(rnd.choice(uses + [[], []]))
+        cases.append(dict(kind='interleaved-use', init=dict(init0, profile=rnd.choice(['undecided', 'disabled'])), runs=rs))
     # 4. all ordered pairs of (return / raise / -i / module) core behaviours
     core_runs = [(True, False, False, None, 'ret'), (True, False, False, None, 'exc'), (False, False, False, None, 'exit'),
                  (True, False, True, None, 'ret'), (True, False, False, 4, 'ret'), (False, True, True, 4, 'exc')]
@@ -209,22 +224,52 @@ def q_rt(sched, o):
 
 
 # ---- the property, python side -------------------------------------------------------------------
-def py_bits(case, o):
-    before, final = o['before'], o['seen'][-1]
+def run_views(case, o):
+    """for every kernprof run: (run, observation just before it, observation after it)"""
+    prev = o['before']
+    for r, ob in zip(case['runs'], o['seen']):
+        for u in ob.get('pre', []):
+            prev = u
+        yield r, prev, ob
+        prev = ob
+
+
+def run_bits(before, final):
     bits = 0
     if final['argv'] != before['argv']:
         bits |= 1
     if final['path'] != before['path']:
         bits |= 2
     same = (final['enabled'], final['profile']) == (before['enabled'], before['profile'])
-    undecided = final['enabled'] is None and final['profile'] is None
-    if o['use'] in (2, 3) or not (same or undecided):
+    unusable = final['enabled'] is True and final['profile'] is None
+    if unusable or not same:
         bits |= 4
     if final['tracing'] != before['tracing']:
         bits |= 8
     if final['threads'] != before['threads']:
         bits |= 16
     return bits
+
+
+def py_bits(case, o):
+    bits = 0
+    for r, before, final in run_views(case, o):
+        bits |= run_bits(before, final)
+        if any(u['code'] in (2, 3) for u in final.get('pre', [])):
+            bits |= 4
+    if o['use'] in (2, 3):
+        bits |= 4
+    return bits
+
+
+def failing_view(case, o, bit):
+    """the first run on which the clause fails, as a one-run case (what classify / why_text look at)"""
+    for r, before, final in run_views(case, o):
+        if run_bits(before, final) & bit:
+            unusable = final['enabled'] is True and final['profile'] is None
+            return (dict(case, runs=[r]), dict(before=before, seen=[final], use=2 if unusable else 0,
+                                               use_err="TypeError: 'NoneType' object is not callable" if unusable else None))
+    return case, o
 
 
 def current_path_prediction(case, o):
@@ -275,8 +320,8 @@ def why_text(case, o, bit):
         return 'sys.path changed: extra entries %r (main raised: %s)' % (extra, [s['raised'] for s in o['seen']])
     if bit == 4:
         after = o['use_err'] or ['returned its argument', 'returned a wrapper'][min(o['use'], 1)]
-        return 'line_profiler.profile left as (enabled=%r, _profile=%r); ordinary use afterwards: %s' % (
-            final['enabled'], final['profile'], after)
+        return 'line_profiler.profile was (enabled=%r, _profile=%r) before kernprof.main, is (enabled=%r, _profile=%r) after; ordinary use afterwards: %s' % (
+            before['enabled'], before['profile'], final['enabled'], final['profile'], after)
     if bit == 8:
         return 'a profiler / trace hook is still installed after kernprof.main'
     if bit == 16:
@@ -294,6 +339,8 @@ def q_prof(p):
         return 'None'
     if p[0] == 'ext':
         return '(Some (Ext %d))' % p[1]
+    if p[0] == 'own':
+        return '(Some (Own %d))' % p[1]
     return '(Some (Own (-1)))'
 
 
@@ -306,7 +353,7 @@ def q_gp(init):
 
 
 def q_run(r):
-    return '(mkOpts %s %s %s %s %s %s %s "/T", mkProg %s %s %s %s [])' % (
+    return '(mkOpts %s %s %s %s %s %s %s "/T") (mkProg %s %s %s %s [])' % (
         core.coq_bool(r['l']), core.coq_bool(r['b']), core.coq_bool(r['m']),
         core.coq_opt(core.coq_str(r['setup']) if r['setup'] else None), core.coq_z(r['interval']),
         q_strs(r['new_argv']), core.coq_str(r['script_dir']),
@@ -322,23 +369,37 @@ def q_seen(s, base_threads):
         core.coq_z(s['threads'] - base_threads), core.coq_bool(s['tracing']))
 
 
+COQ_USE = dict(enable='AEnable', disable='ADisable', decorate='ADecorate')
+
+
 def q_case(case, o):
     init, b = case['init'], o['before']
     st = '(mk_state %s %s %s %s %s 0)' % (q_strs(b['argv']), core.coq_bool(init['argv_rebound']), q_strs(b['path']),
                                          core.coq_bool(init['path_rebound']), q_gp(init))
-    return '(c19_case %s %s %s %s)' % (st, core.coq_list([q_run(r) for r in case['runs']]),
-                                       core.coq_list([q_seen(s, b['threads']) for s in o['seen']]), core.coq_z(o['use']))
+    acts, obs = [], []
+    for r, ob in zip(case['runs'], o['seen']):
+        for op, u in zip(r.get('pre_use', []), ob.get('pre', [])):
+            acts.append(COQ_USE[op])
+            obs.append('(%s, %s)' % (q_seen(u, b['threads']), core.coq_z(u['code'])))
+        acts.append('ARun ' + q_run(r))
+        obs.append('(%s, 0)' % q_seen(ob, b['threads']))
+    # the ordinary use afterwards: the driver observes its answer only
+    acts_full = core.coq_list(acts)
+    return '(c19_case %s %s %s %s %s)' % (st, acts_full, q_seen(b, b['threads']), core.coq_list(obs), core.coq_z(o['use']))
 
 
 HEADER = '''From LP Require Import Prelude.Py Explicit.Base Gen.GlobalProfiler Cli.MainEffects Cli.MainEffectsProofs.
-Definition c19_case (s : St) (rs : list run) (os : list seen) (use : Z) : bool * Z :=
-  (case_model_ok s rs os use, match rev os with final :: _ => spec_bits s final use | [] => 0 end).
+Definition c19_case (s : St) (acts : list act) (before : seen) (os : list (seen * Z)) (use : Z) : bool * Z :=
+  (case_model_ok s acts os
+   && Z.eqb (use_code (gp (exec_acts current s acts)) (cur (argv (exec_acts current s acts)))) use,
+   Z.lor (spec_bits before acts os) (if Z.eqb use 2 || Z.eqb use 3 then 4 else 0)).
 '''
 
 
 def run_driver(impl, cases, tmp, rt=()):
     payload = dict(tmp=str(tmp), files=all_files(), rt=list(rt),
-                   cases=[dict(init=c['init'], runs=[dict(args=[a.replace('{TMP}', str(tmp)) for a in r['args']]) for r in c['runs']])
+                   cases=[dict(init=c['init'], runs=[dict(args=[a.replace('{TMP}', str(tmp)) for a in r['args']], pre_use=r.get('pre_use', []))
+                                                     for r in c['runs']])
                           for c in cases])
     out = core.run_impl(impl, DRIVER, payload, timeout=1500, cwd=str(tmp))
     if not out.get('kernprof_file', '').startswith(str(impl)):
@@ -352,9 +413,12 @@ def fails_of(case, o, bits):
     res = []
     for bit in (1, 2, 4, 8, 16):
         if bits & bit:
-            res.append(dict(case=dict(case, clause=BITNAMES[bit]), impl=dict(before=o['before'], final=o['seen'][-1], use=o['use'], use_err=o['use_err'],
-                                                                         raised=[s['raised'] for s in o['seen']]),
-                            why=why_text(case, o, bit), finding=classify(case, o, bit)))
+            vc, vo = failing_view(case, o, bit)
+            res.append(dict(case=dict(case, clause=BITNAMES[bit]),
+                            impl=dict(before=vo['before'], final=vo['seen'][-1], use=o['use'], use_err=o['use_err'],
+                                      raised=[s['raised'] for s in o['seen']],
+                                      decorator_states=[[u['enabled'], u['profile']] for s in o['seen'] for u in s.get('pre', []) + [s]]),
+                            why=why_text(vc, vo, bit), finding=classify(vc, vo, bit)))
     return res
 
 
